@@ -782,7 +782,7 @@ def emit_shape(outdir):
     L = []
     w = L.append
     w("(* GENERATED by tools/translate.py (translate_shape) from /repo/tealer -- do not edit *)")
-    w("(* teal/instructions/parse_instruction.py: the lambdas of parser_rules, handle_gtxn / handle_gtxna / handle_gtxnas;")
+    w("(* teal/instructions/parse_instruction.py: _parse_int, _is_int, the lambdas of parser_rules, handle_gtxn / handle_gtxna / handle_gtxnas;")
     w("   parse_transaction_field.py, parse_global_field.py, parse_asset_holding_field.py, parse_asset_params_field.py,")
     w("   parse_app_params_field.py, parse_acct_params_field.py: the field parsers.  See tools/translate_shape.py. *)")
     w(f"(* prelude sha256: {PRELUDE_SHA256} *)")
